@@ -907,8 +907,10 @@ Example ex_as_merge_types :
   derive_as_kinds no_generics [] [(tyA, [FTypes [tyA]; FTypes [tyB]])] = inr [(0, TgTy tyA, Direct); (0, TgTy tyB, Specialized)].
 Proof. reflexivity. Qed.
 
-(* GenericsSearch: the head of `T<..>` and the segments of a qualified path are not looked at *)
+(* GenericsSearch: the head of `T<..>` and the later segments of a qualified path are not looked at;
+   `T::Assoc` (first segment a type parameter) is generic *)
 Example ex_any_in :
-  any_in gT (tyVec tyT) = true /\ any_in gT (TApp tyT tyA) = false /\ any_in gT (TQual [9%N; 7%N]) = false
+  any_in gT (tyVec tyT) = true /\ any_in gT (TApp tyT tyA) = false /\ any_in gT (TQual [7%N; 9%N]) = false
+  /\ any_in gT (TQual [9%N; 7%N]) = true /\ any_in gT (TApp (TQual [9%N; 7%N]) tyA) = true
   /\ any_in gT (TSlice tyT) = true /\ any_in gT (TRef None false (TParen tyT)) = true /\ any_in gT tyA = false.
 Proof. repeat split; reflexivity. Qed.
